@@ -141,3 +141,12 @@ Proof.
     apply andb_true_iff in H as [H _]. apply existsb_exists in H. exact H.
   - apply andb_true_iff in H as [_ H]. exact (IH H).
 Qed.
+
+Lemma safe_text_l y : safe_raw y = true ->
+  (forall c, forbidden c = true -> ~ In c y) /\
+  (forall pre post, y = pre ++ c_amp :: post -> exists e, In e entities /\ prefixb (fst e) post = true) /\
+  containsb (s "]]>") y = false.
+Proof.
+  intros H. split; [intros c F; exact (safe_no_char y c H F)|].
+  split; [exact (safe_amp_entity y H)|exact (safe_no_cdata_end y H)].
+Qed.
